@@ -273,3 +273,67 @@ theorem learnChunks_good {σ : Type} (magic version : Nat) (learnFile : σ → L
     exact ih _
 
 end Pyndl
+
+namespace Pyndl
+open List
+
+/-! ## the two binary-to-binary entry points as called; the readers on complete byte strings -/
+
+/-- **empty file list ⇒ `IOError`** (the entry point's `INITIAL_ERROR_CODE` is never
+    overwritten), weights untouched -/
+theorem learnChunksB2B_nil {σ : Type} (magic version : Nat) (learnFile : σ → List (Event Nat Nat) → σ) (w : σ) :
+    learnChunksB2B magic version learnFile [] w = (w, some .noFile) := rfl
+
+theorem learnChunksB2B_of_ne_nil {σ : Type} (magic version : Nat) (learnFile : σ → List (Event Nat Nat) → σ)
+    (files : List Bytes) (h : files ≠ []) (w : σ) :
+    learnChunksB2B magic version learnFile files w = learnChunks magic version learnFile files w := by
+  cases files with
+  | nil => exact absurd rfl h
+  | cons f fs => rfl
+
+/-- whenever the (model of the) Python reader reads a byte string completely,
+    the kernels' reader reads the same events from it -/
+theorem decodeChunkKernel_of_py_ok (magic version : Nat) (bs : Bytes) (es : List (Event Nat Nat))
+    (h : decodeChunkPy magic version bs = .ok es) :
+    ∃ hist, decodeChunkKernel magic version bs = .ok (es, hist) := by
+  have := decodeChunkKernel_eq_py magic version bs
+  rw [h] at this
+  cases hk : decodeChunkKernel magic version bs with
+  | error e => rw [hk] at this; cases this
+  | ok r =>
+    rw [hk] at this
+    simp only [Except.map, Except.ok.injEq] at this
+    exact ⟨r.2, by rw [← this]⟩
+
+/-- … and conversely -/
+theorem decodeChunkPy_of_kernel_ok (magic version : Nat) (bs : Bytes) (es : List (Event Nat Nat))
+    (hist : List (Nat × Nat)) (h : decodeChunkKernel magic version bs = .ok (es, hist)) :
+    decodeChunkPy magic version bs = .ok es := by
+  rw [← decodeChunkKernel_eq_py, h]; rfl
+
+/-- the two readers reject the same headers with the same verdict -/
+theorem decodeChunk_error_iff (magic version : Nat) (bs : Bytes) (e : ReadErr) :
+    decodeChunkKernel magic version bs = .error e ↔ decodeChunkPy magic version bs = .error e := by
+  have := decodeChunkKernel_eq_py magic version bs
+  cases hk : decodeChunkKernel magic version bs with
+  | error e' =>
+    rw [hk] at this
+    simp only [Except.map] at this
+    rw [← this]
+    constructor <;> intro h <;> cases h <;> rfl
+  | ok r =>
+    rw [hk] at this
+    simp only [Except.map] at this
+    rw [← this]
+    constructor <;> intro h <;> cases h
+
+/-- the readers never report `noFile` (that is the entry points' verdict on an
+    empty LIST of files) -/
+theorem decodeChunkKernel_ne_noFile (magic version : Nat) (bs : Bytes) :
+    decodeChunkKernel magic version bs ≠ .error .noFile := by
+  unfold decodeChunkKernel
+  intro h
+  repeat' split at h
+  all_goals cases h
+
+end Pyndl
